@@ -1,11 +1,11 @@
 package core
 
 import (
-	"os"
 	"encoding/hex"
 	"encoding/json"
 	"fmt"
 	"math/rand"
+	"os"
 	"sort"
 	"time"
 
@@ -34,16 +34,16 @@ type SiteAct struct {
 
 // Step is one driver step.
 type Step struct {
-	Kind    string    `json:"kind"` // "block" | "restart" | "checks"
-	Txs     []string  `json:"txs,omitempty"`
-	Labels  []string  `json:"labels,omitempty"` // generator intent label per tx (parallel to Txs)
-	DtMs    int64     `json:"dt_ms,omitempty"`
-	Absent  []string  `json:"absent,omitempty"`
+	Kind     string         `json:"kind"` // "block" | "restart" | "checks"
+	Txs      []string       `json:"txs,omitempty"`
+	Labels   []string       `json:"labels,omitempty"` // generator intent label per tx (parallel to Txs)
+	DtMs     int64          `json:"dt_ms,omitempty"`
+	Absent   []string       `json:"absent,omitempty"`
 	Evidence []EvidenceSpec `json:"evidence,omitempty"` // duplicate-vote evidence to include in the block
-	Replica int       `json:"replica,omitempty"`
-	Acts    []SiteAct `json:"acts,omitempty"`
-	Note    string    `json:"note,omitempty"`
-	Join    *ReplicaConf `json:"join,omitempty"` // kind "join": a new replica that syncs from genesis (late joiner)
+	Replica  int            `json:"replica,omitempty"`
+	Acts     []SiteAct      `json:"acts,omitempty"`
+	Note     string         `json:"note,omitempty"`
+	Join     *ReplicaConf   `json:"join,omitempty"` // kind "join": a new replica that syncs from genesis (late joiner)
 }
 
 // EvidenceSpec asks the driver for a real DuplicateVoteEvidence signed with a validator's key.
